@@ -145,6 +145,10 @@ func (e *Eval) declField(st types.Type, i int) string {
 	s := st.Underlying().(*types.Struct)
 	comp := fieldComp(st, i)
 	e.c.DeclComp(comp, fmt.Sprintf("(Array Int %s)", e.c.Sort(s.Field(i).Type())))
+	switch s.Field(i).Type().Underlying().(type) {
+	case *types.Pointer, *types.Map, *types.Chan:
+		e.c.ptrComps[comp] = "field"
+	}
 	return comp
 }
 
@@ -283,6 +287,7 @@ func (e *Eval) freshRef(prefix string) string {
 		e.c.Assert("(not (= " + r + " " + a + "))")
 	}
 	e.allocs = append(e.allocs, r)
+	e.c.freshAllocs = append(e.c.freshAllocs, freshAlloc{r, e.c.Mark()})
 	return r
 }
 
@@ -716,7 +721,7 @@ func (e *Eval) loopHeader(fr *Frame, b *ssa.BasicBlock, li *loopInfo, s *State, 
 			c.Unsupported("%v", err)
 			continue
 		}
-		e.oblige(fmt.Sprintf("loop#%d/init/%s", li.ord, clauseLabel(cl, spec.Invariants)), "loop-init", cl.Props, cur, env.evalBool(ex), cl.Text, cl.Where)
+		e.oblige(fmt.Sprintf("loop#%d/init/%s", li.ord, clauseLabel(cl, spec.Invariants)), "loop-init", cl.Props, cur, env.evalGoal(ex), cl.Text, cl.Where)
 	}
 	// dry run to find what the body writes
 	sn := e.snap(fr)
@@ -805,7 +810,7 @@ func (e *Eval) loopBackEdge(fr *Frame, from, header *ssa.BasicBlock, st *State, 
 		if err != nil {
 			continue
 		}
-		e.oblige(fmt.Sprintf("loop#%d/preserved/%s", ls.li.ord, clauseLabel(cl, ls.spec.Invariants)), "loop-preserved", cl.Props, cond, env.evalBool(ex), cl.Text, cl.Where)
+		e.oblige(fmt.Sprintf("loop#%d/preserved/%s", ls.li.ord, clauseLabel(cl, ls.spec.Invariants)), "loop-preserved", cl.Props, cond, env.evalGoal(ex), cl.Text, cl.Where)
 	}
 	if ls.spec.Decreases != nil && ls.measure != "" {
 		if ex, err := ls.spec.Decreases.Parse(); err == nil {
